@@ -64,6 +64,9 @@ def build_mps(torch, C, precs, seed, kind, counts=None):
     elif kind == 'conv3only':      # a single searchable layer: the total cost is this layer's cost
         net = nn.Sequential(nn.Conv2d(8, C, 3, padding=1))
         shape = (8, 6, 6)
+    elif kind == 'conv3pair':      # two 3x3 convolutions of the same width (the crafted counts apply to both)
+        net = nn.Sequential(nn.Conv2d(3, C, 3, padding=1), nn.ReLU(), nn.Conv2d(C, C, 3, padding=1), nn.ReLU(), nn.AdaptiveAvgPool2d(1), nn.Flatten(), nn.Linear(C, 10))
+        shape = (3, 6, 6)
     elif kind == 'conv1':
         net = nn.Sequential(nn.Conv2d(16, C, 1), nn.ReLU(), nn.AdaptiveAvgPool2d(1), nn.Flatten(), nn.Linear(C, 4))
         shape = (16, 5, 5)
@@ -188,13 +191,21 @@ def run(ctx):
     # the search pass through 32m+1 channels in one precision (NE16 tiles of 32), non power-of-two channel counts
     crafted = [(32, (2, 4, 8), 'conv3only', (20, 12, 0)), (32, (2, 4, 8), 'conv3', (12, 0, 20)), (48, (2, 4, 8), 'conv3only', (15, 9, 24)),
                (48, (2, 4, 8), 'conv3only', (12, 30, 6)), (48, (2, 4, 8), 'conv3only', (24, 18, 6)), (36, (2, 4, 8), 'conv3only', (3, 1, 32)),
-               (64, (2, 4, 8), 'dw', (40, 24, 0)), (48, (2, 8), 'conv3only', (15, 33)), (72, (2, 4, 8), 'conv3only', (7, 32, 33)), (32, (2, 4, 8), 'dw', (31, 1, 0))]
+               (64, (2, 4, 8), 'dw', (40, 24, 0)), (48, (2, 8), 'conv3only', (15, 33)), (72, (2, 4, 8), 'conv3only', (7, 32, 33)), (32, (2, 4, 8), 'dw', (31, 1, 0)),
+               # precision tuples in CYCLIC order (sorting permutation not an involution); counts are per tuple position
+               (64, (4, 8, 2), 'conv3only', (20, 14, 30)), (64, (8, 2, 4), 'conv3only', (10, 34, 20)), (48, (4, 8, 2), 'conv3only', (24, 0, 24)),
+               # 0-bit precision with channels actually pruned and the rest split over two precisions (fractional effective counts)
+               (64, (0, 2, 4, 8), 'conv3only', (8, 0, 20, 36)), (64, (0, 2, 4, 8), 'conv3pair', (12, 0, 28, 24)), (64, (0, 2, 4, 8), 'conv3pair', (8, 0, 20, 36)),
+               (64, (0, 2, 4, 8), 'conv3only', (16, 8, 20, 20))]
     if not ctx.quick:
         for _ in range(60):
             C = ctx.rng.choice([32, 36, 40, 48, 64, 72, 96])
             a = ctx.rng.randint(0, C)
             b = ctx.rng.choice([0, 0, ctx.rng.randint(0, C - a)])
-            crafted.append((C, (2, 4, 8), ctx.rng.choice(['conv3only', 'conv3only', 'conv3', 'dw']), (a, b, C - a - b)))
+            crafted.append((C, ctx.rng.choice([(2, 4, 8), (2, 4, 8), (4, 8, 2), (8, 2, 4), (8, 4, 2)]), ctx.rng.choice(['conv3only', 'conv3only', 'conv3', 'dw']), (a, b, C - a - b)))
+            z = ctx.rng.randint(1, C // 3)
+            a2 = ctx.rng.randint(0, C - z)
+            crafted.append((C, (0, 2, 4, 8), ctx.rng.choice(['conv3only', 'conv3pair']), (z, 0, a2, C - z - a2)))
     configs = [c + (None,) for c in configs] + crafted
     for idx, (C, precs, kind, counts) in enumerate(configs):
         seed = ctx.seed * 1000 + idx
